@@ -234,7 +234,7 @@ def binding_selftest():
     """A validator whose slice-contiguity check is disabled must be flagged by the same replay machinery."""
     from vc2_conformance.decoder import fragment_syntax as fs
 
-    cfg = {"prof": "HQ", "ver": 3, "pat": "any", "fields": False}
+    cfg = {"prof": "HQ", "ver": 3, "pat": "any", "fields": False, "sx": 2}
 
     def U(viol=(), **kw):
         return {"u": dict({"npo": "ok", "ppo": "ok"}, **kw), "viol": list(viol)}
